@@ -3,6 +3,7 @@ metric is used, consumer validates liveness."""
 from ..cfg import Body
 from ..report import where
 from .. import storemodel as sm, pairing
+from .. import orderdom as od
 
 LEVEL = "other"
 
@@ -47,5 +48,54 @@ def run(ctx, F, cg):
             ctx.ok("R29c", nm, "validates index hits against the store")
         else:
             ctx.violation("R29c", nm + "|no-liveness-check", where(fs[0]), "%s binds node ids returned by a secondary index without checking that the node still exists" % nm)
+    # ---- R29d: one conversion from property value to vector at every indexing site -------------------------------
+    ctx.rule("R29d", "every add_vector call of the graph store whose vector comes from a PropertyValue obtains it through PropertyValue::to_vector (which accepts the Vector variant and numeric lists alike): a site matching on one representation silently leaves nodes whose embedding is stored in the other out of the index")
+    n_sites = 0
+    for p, r in sorted(F.fns.items()):
+        if not p.startswith("samyama::graph::store") or not any(c.endswith("VectorIndexManager::add_vector") for c in r["calls"]):
+            continue
+        b = Body(F.mir(p), r)
+        ctx.saw_fn(p)
+        k = 0
+        for c in b.calls():
+            if not c.path.endswith("VectorIndexManager::add_vector") or not c.args or c.args[-1][0] == "k":
+                continue
+            a = c.args[-1]
+            tys = {b.local_ty(l) for l in od.chain_locals(b, a)}
+            og = b.origins(a[1][0], through_calls=lambda cc: [0] if cc.path.rsplit("::", 1)[-1] in ("deref", "as_slice", "as_ref", "branch", "unwrap", "borrow", "index", "clone", "to_vec", "as_deref") else None)
+            conv = any(o[0] == "call" and o[1].path.endswith("PropertyValue::to_vector") for o in og)
+            if not conv and not any("property::PropertyValue" in t for t in tys):
+                continue        # e.g. an embedding produced by the auto-embed pipeline
+            n_sites += 1
+            short = p.replace("samyama::graph::store::", "")
+            inst = "%s|add_vector|%d" % (short, k)
+            k += 1
+            if conv:
+                ctx.ok("R29d", inst, "vector obtained through to_vector")
+            else:
+                ctx.violation("R29d", inst, where(r, c.line), "the vector handed to add_vector is taken from a PropertyValue without to_vector(): an embedding stored in the other representation (numeric list vs Vector) is not indexed here although the sibling sites index it")
+    ctx.floor("R29d", "add_vector sites fed from a property value", n_sites, 7)
+    # ---- R29e: cosine distance is scale invariant ---------------------------------------------------------------
+    ctx.rule("R29e", "cosine distance does not depend on the length of either vector: in CosineDistance::eval a comparison of an accumulated norm with a constant compares with exactly zero — a positive threshold ranks every short vector as equidistant from everything")
+    ev = [r for p, r in F.fns.items() if p.startswith("<samyama::vector::index::CosineDistance as ") and p.endswith("::eval")]
+    if len(ev) != 1:
+        ctx.anchor_failure("R29e", "CosineDistance::eval (found %d)" % len(ev))
+    else:
+        r = ev[0]
+        b = Body(F.mir(r["path"]), r)
+        ctx.saw_fn(r["path"])
+        bad = None
+        ncmp = 0
+        for i, j, pl, rv, line, exp in b.stmts():
+            if rv[0] == "bin" and rv[1] in od.CMP:
+                ks = [o for o in rv[2:4] if o[0] == "k"]
+                if ks and ks[0][2] in ("f32", "f64"):
+                    ncmp += 1
+                    if ks[0][3] not in ("0", "2147483648", "9223372036854775808"):
+                        bad = (line, ks[0][1])
+        if bad:
+            ctx.violation("R29e", "CosineDistance::eval|threshold", where(r, bad[0]), "a norm is compared with the non-zero constant `%s`: vectors shorter than that are all reported at the same distance, whatever their direction" % bad[1])
+        else:
+            ctx.ok("R29e", "CosineDistance::eval|zero-guard", "%d float comparison(s) with a constant, all with zero" % ncmp)
     return ("Decided: which store mutators keep the vector index current, whether the declared metric influences ranking at all, and whether the consuming "
             "operator validates hits. Not decided: ranking values, HNSW recall.")
